@@ -784,6 +784,19 @@ class _MaintTr:
         return False
 
     # -- statements
+    def _direct_value(self, v: ast.expr) -> str | None:
+        """the value of a direct `self._keys[key] = ...` store in the maintenance part: a string literal, the previous
+        value, or `<previous value> or '<literal>'` (round 4)"""
+        if isinstance(v, ast.Constant) and isinstance(v.value, str) and v.value.isascii():
+            return f'(AStoreKey {_coq_str(v.value)})'
+        if isinstance(v, ast.Name) and self.ov is not None and v.id == self.ov:
+            return '(AStoreKeyOrig [])'
+        if isinstance(v, ast.BoolOp) and isinstance(v.op, ast.Or) and len(v.values) == 2 and isinstance(v.values[0], ast.Name) \
+                and self.ov is not None and v.values[0].id == self.ov and isinstance(v.values[1], ast.Constant) \
+                and isinstance(v.values[1].value, str) and v.values[1].value.isascii():
+            return f'(AStoreKeyOrig {_coq_str(v.values[1].value)})'
+        return None
+
     @staticmethod
     def _irrelevant(st: ast.stmt) -> bool:
         """A statement that cannot touch the indexes, the entity list, the classname/targetname or the control flow."""
@@ -861,12 +874,12 @@ class _MaintTr:
                     act = f'(ASelfSet {_coq_str(t.slice.value)} {_coq_str(v.value)})'
                 else:
                     raise TranslateError(f'{w}: unrecognised recursive store {ast.unparse(st)}')
-            elif isinstance(t, ast.Subscript) and _is_self_keys(t.value) and isinstance(v, ast.Constant) and isinstance(v.value, str):
+            elif isinstance(t, ast.Subscript) and _is_self_keys(t.value) and self._direct_value(v) is not None:
                 # a direct store: it must go to the spelling under which the value was just stored
                 if not (isinstance(t.slice, ast.Name) and self.hit.env.get(t.slice.id) == ('spell', self.hit.stored)
                         and self.miss.env.get(t.slice.id) == ('spell', self.miss.stored)):
                     raise TranslateError(f'{w}: direct _keys store under another spelling than the one just used')
-                act = f'(AStoreKey {_coq_str(v.value)})'
+                act = self._direct_value(v)
             elif isinstance(t, ast.Name) and t.id not in (self.ov, self.newvar, self.key_param):
                 # a boolean or key local: inline it
                 # (statements after an `if` are translated before its branches, so a local may be bound only once on the
